@@ -498,8 +498,9 @@ C08_CONTRACTS = [
     "Kconfig.load_config(f), f tool-written, UNCHANGED tree, policies sdkconfig and kconfig: snapshot and user state "
     "== those of a fresh instance loading f with every '# default:' entry removed -- directly after the load and "
     "after every step of the same later edit sequence applied to both instances",
-    "same load: every unmarked entry of f is a user value afterwards (Symbol._user_value is not None; the y member "
-    "of an unmarked choice is Choice._user_selection)",
+    "same load: every unmarked entry of f that carries a value is a user value afterwards (Symbol._user_value is not "
+    "None; the y member of an unmarked choice is Choice._user_selection); 'CONFIG_X=' with nothing after the '=' for "
+    "an int / hex / float option (the option has no value at all) carries none",
     "CHANGED tree (one default / condition / prompt / option changed between writing and loading), policy kconfig: "
     "load_config(f) == load_config(f without default-marked entries), snapshot and user state, now and after edits",
     "CHANGED tree, policy sdkconfig: load_config(f) == load_config(f without the default-marked entries of options "
@@ -508,10 +509,16 @@ C08_CONTRACTS = [
     "X.str_value == v after the load, unless v is not acceptable (a user assignment X.set_value(v) on an identically "
     "loaded instance does not yield v: invisible, out of range, invalid, forced); a default-marked choice keeps its "
     "stored selection unless selecting it by hand is impossible",
-    "CHANGED tree, both policies: every default-marked entry X=v of a prompted, visible, non-choice option whose "
+    "CHANGED tree, both policies: every default-marked entry X=v of a prompted non-choice option that is still part of "
+    "the configuration under policy kconfig (visible, or invisible but written out with its Kconfig default) and whose "
     "Kconfig value (value under policy kconfig) differs from v is in DefaultValuesArea.changed_defaults under policy "
     "kconfig, and the changed option itself also under policy sdkconfig; same for a default-marked visible choice "
-    "and changed_choices",
+    "and changed_choices (also when the stored member itself is not visible any more). Entries of options / choices "
+    "that the new tree switches off (invisible and not written out) are like entries of removed options: nothing is "
+    "expected for them",
+    "CHANGED tree, policy sdkconfig, two or more default-marked choices in f: load_config(f) is a function of tree, "
+    "file and policy -- fresh instances loading the same f give the same snapshot and the same changed_defaults / "
+    "changed_choices records",
 ]
 
 
@@ -544,6 +551,43 @@ def _pair_compare(out, w, B, R, edits, tag, contract, ctx):
                 "%s; user values after the load differ (full file vs reference), no value difference during %s: %s"
                 % (ctx, _j(steps[1:]), _j(d)))
     return True
+
+
+def _c08_rival(s):
+    """Class suffix only (never part of an oracle): what competes with a stored default that was not kept."""
+    if s.orig_type == K.BOOL:
+        if K.expr_value(s.weak_rev_dep):
+            return ":implied"
+    elif any(K.expr_value(cond) for _, cond, _ in s.weak_rev_values):
+        return ":set-default-target"
+    if len(s.nodes) > 1:
+        return ":multi-def"
+    if s.orig_type == K.STRING and s._sdkconfig_value in ("y", "n"):
+        return ":value-y-or-n"
+    return ""
+
+
+def _c08_sig(k):
+    """What a load left behind, as far as default-marked prompted entries can influence it (call right after the load)."""
+    d = diagnostics(k)
+    return _j([lib("snapshot", snap, k), d["changed_defaults"], d["changed_choices"]])
+
+
+def _c08_load_varies(out, w, new, policy, pf, sig_b, tag, ctx):
+    """True (and a violation of C08_CONTRACTS[6]) iff some fresh instance loading the SAME file differs from sig_b."""
+    out.evals += 1
+    for _ in range(40):
+        X = w.kconf(new, policy)
+        reset_report()
+        lib("load_config", X.load_config, pf)
+        sig_x = _c08_sig(X)
+        if sig_x != sig_b:
+            a, b = json.loads(sig_b), json.loads(sig_x)
+            out.bad("%s:load-not-deterministic:marked-choices" % tag, C08_CONTRACTS[6],
+                    "%s; two fresh instances loading this file disagree: changed_choices %s vs %s, changed_defaults %s "
+                    "vs %s, snapshot difference %s" % (ctx, _j(a[2]), _j(b[2]), _j(a[1]), _j(b[1]), _j(dict_diff(a[0], b[0]))))
+            return True
+    return False
 
 
 def check_c08(case, w, out):
@@ -584,7 +628,8 @@ def check_c08(case, w, out):
         seqs = list(edit_seqs)
         if not changed and policy == "kconfig":
             seqs = seqs[-1:]  # unchanged tree: all sequences under the default policy, the last one under policy kconfig
-        if changed and policy == "sdkconfig" and n_marked_choices >= 2:
+        multi = changed and policy == "sdkconfig" and n_marked_choices >= 2
+        if multi:
             # the library resolves default-marked choices in the iteration order of a set of objects (address
             # dependent): repeat the load with fresh instances so that both orders are seen with probability 1 - 2^-5
             seqs = seqs * 6
@@ -592,6 +637,7 @@ def check_c08(case, w, out):
             B = w.kconf(new, policy)
             reset_report()
             lib("load_config", B.load_config, pf)
+            sig_b = _c08_sig(B) if multi else None
             if si == 0:
                 diag = diagnostics(B)
                 snap_b0 = lib("snapshot", snap, B)
@@ -602,6 +648,11 @@ def check_c08(case, w, out):
                     if marked or not has_prompt(B, name):
                         continue
                     s = B.syms[name]
+                    if raw == "" and s.orig_type in (K.INT, K.HEX, K.FLOAT):
+                        # 'CONFIG_X=': the option had no value at all when the file was written (no default in
+                        # effect, user value rejected as out of range). The entry carries no value that could be
+                        # restored as a user value ("" is not an int / hex / float).
+                        continue
                     out.evals += 1
                     if s._user_value is None and not changed:
                         out.bad("%s:unmarked-not-user:%s" % (tag, sym_tag(B, name)), C08_CONTRACTS[1],
@@ -616,6 +667,8 @@ def check_c08(case, w, out):
                                     "%s; default-marked entry %s became a user value %r" % (ctx, name, ub0[name]))
             R = w.kconf(new, policy)
             lib("load_config(reference)", R.load_config, pr)
+            if multi and _c08_sig(R) != sig_b and _c08_load_varies(out, w, new, policy, pf, sig_b, tag, ctx):
+                break  # the load itself has more than one outcome: comparing two instances says nothing
             if not _pair_compare(out, w, B, R, edits, tag, contract, ctx):
                 break
         if not changed:
@@ -641,45 +694,51 @@ def check_c08(case, w, out):
             e_k = {}
             for n, v in marked_syms:
                 if n not in ub0 and snap_b0[n][0] != v:
-                    e_k[n] = (v, snap_b0[n][0], snap_b0[n][1] > 0)
+                    if snap_b0[n][1] > 0:
+                        e_k[n] = (v, snap_b0[n][0], sym_tag(B, n))
+                    elif snap_b0[n][4]:
+                        # not visible, but still written out with a Kconfig default that is not the stored one
+                        e_k[n] = (v, snap_b0[n][0], "invisible-still-written")
+                    # else: the new tree switches the option off (invisible, not written): like a removed option
             e_k_choices = {}
             for idx, rec in marked_choices.items():
                 ch = N0.unique_choices[idx]
                 key = ckey(idx, ch.name)
-                if key not in ub0 and snap_b0[key] != rec["y"][0]:
-                    vis = snap_b0[rec["y"][0]][1] > 0 and ch_vis0[idx] > 0
-                    e_k_choices[idx] = (rec["y"][0], snap_b0[key], vis)
+                if key not in ub0 and snap_b0[key] != rec["y"][0] and ch_vis0[idx] > 0:
+                    # (an invisible choice has no selection and none of its members is written: switched off)
+                    e_k_choices[idx] = (rec["y"][0], snap_b0[key],
+                                        "" if snap_b0[rec["y"][0]][1] > 0 else ":stored-member-invisible")
             if e_k or e_k_choices:
                 interesting = True
-            for n, (v, kv, vis) in sorted(e_k.items()):
+            for n, (v, kv, shape) in sorted(e_k.items()):
                 out.evals += 1
                 if n not in reported:
-                    out.bad("%s:mismatch-not-reported:%s" % (tag, sym_tag(B, n) if vis else "invisible"), C08_CONTRACTS[5],
+                    out.bad("%s:mismatch-not-reported:%s" % (tag, shape), C08_CONTRACTS[5],
                             "%s; stored default %s=%r differs from the Kconfig value %r but changed_defaults = %s"
                             % (ctx, n, v, kv, _j(diag["changed_defaults"])))
-            for idx, (sel, ksel, vis) in sorted(e_k_choices.items()):
+            for idx, (sel, ksel, shape) in sorted(e_k_choices.items()):
                 out.evals += 1
                 nm = N0.unique_choices[idx].name or "nameless"
                 if nm not in reported_ch:
-                    out.bad("%s:choice-mismatch-not-reported%s" % (tag, "" if vis else ":invisible"), C08_CONTRACTS[5],
+                    out.bad("%s:choice-mismatch-not-reported%s" % (tag, shape), C08_CONTRACTS[5],
                             "%s; stored default selection %s of choice %s differs from the Kconfig selection %r but "
                             "changed_choices = %s" % (ctx, sel, nm, ksel, _j(diag["changed_choices"])))
         else:
             m_name = mut.get("name")
             if m_name in (e_k or {}):
                 out.evals += 1
-                v, kv, vis = e_k[m_name]
+                v, kv, shape = e_k[m_name]
                 if m_name not in reported:
-                    out.bad("%s:mismatch-not-reported:%s" % (tag, sym_tag(B, m_name) if vis else "invisible"),
+                    out.bad("%s:mismatch-not-reported:%s" % (tag, shape),
                             C08_CONTRACTS[5],
                             "%s; changed option %s: stored default %r differs from the Kconfig value %r but "
                             "changed_defaults = %s" % (ctx, m_name, v, kv, _j(diag["changed_defaults"])))
             if mut.get("choice") is not None and mut["choice"] in (e_k_choices or {}):
                 out.evals += 1
-                sel, ksel, vis = e_k_choices[mut["choice"]]
+                sel, ksel, shape = e_k_choices[mut["choice"]]
                 nm = N0.unique_choices[mut["choice"]].name or "nameless"
                 if nm not in reported_ch:
-                    out.bad("%s:choice-mismatch-not-reported%s" % (tag, "" if vis else ":invisible"), C08_CONTRACTS[5],
+                    out.bad("%s:choice-mismatch-not-reported%s" % (tag, shape), C08_CONTRACTS[5],
                             "%s; changed choice %s: stored default selection %s differs from the Kconfig selection %r "
                             "but changed_choices = %s" % (ctx, nm, sel, ksel, _j(diag["changed_choices"])))
             # stored values are kept
@@ -697,7 +756,7 @@ def check_c08(case, w, out):
                 ok = s.str_value == v
                 s.unset_value()
                 if ok and s.str_value == before:
-                    out.bad("%s:stored-default-not-kept:%s" % (tag, sym_tag(B, n)), C08_CONTRACTS[4],
+                    out.bad("%s:stored-default-not-kept:%s%s" % (tag, sym_tag(B, n), _c08_rival(s)), C08_CONTRACTS[4],
                             "%s; default-marked entry %s=%r: value after load is %r although a user assignment of %r "
                             "is accepted" % (ctx, n, v, snap_b0[n][0], v))
             for idx, rec in sorted(marked_choices.items()):
@@ -864,7 +923,8 @@ def _c11_eval_entries(out, w, tree, text, tag, ctx):
             ok = got == want
             shown = "eval_string(%r) = %r, expected %r" % (name, got, want)
         else:
-            expr = "%s = %s" % (name, raw)
+            # ('CONFIG_OLD=' with nothing after the '=' is an int / hex / float option without a value: the empty string)
+            expr = "%s = %s" % (name, raw if raw != "" else '""')
             got = lib("eval_string", E.eval_string, expr)
             ok = got == 2
             shown = "eval_string(%r) = %r (expected 2); str_value %r, written %s" % (expr, got, s.str_value, raw)
